@@ -11,7 +11,7 @@ import ast
 import os
 
 from .. import cxx
-from ..astutil import ancestors, calls_in, dotted, enclosing_stmt, src, walk_local
+from ..astutil import deref, ancestors, calls_in, dotted, enclosing_stmt, src, walk_local
 from ..cfg import cfg_of
 from ..loader import AnalysisError
 from .common import func_label, loc
@@ -271,10 +271,18 @@ def r4_prefix(ctx):
     buf = alias.get(wbase, wbase)
     for y in ys:
         yst = enclosing_stmt(y)
-        v = y.value
+        v = deref(f.node, y.value) if isinstance(y.value, ast.Name) else y.value
         sl = v.args[0] if isinstance(v, ast.Call) and dotted(v.func) in ('bytes', 'bytearray') and len(v.args) == 1 else v
+        sl = deref(f.node, sl) if isinstance(sl, ast.Name) else sl
         if not (isinstance(sl, ast.Subscript) and isinstance(sl.value, ast.Name) and isinstance(sl.slice, ast.Slice) and sl.slice.step is None):
-            raise AnalysisError(f'C10.R4: the emitted value `{src(v, 60)}` is not a slice of a named buffer')
+            ctx.fail(
+                'C10.R4',
+                f'{func_label(f)}|emitted-prefix-is-removed-prefix',
+                loc(f, yst),
+                f'a chunk `{src(y.value, 50)}` is emitted that is not a prefix of the carry-over buffer cut at a position returned by next_cut: its boundaries are not decided by the content-defined cutter '
+                '(they depend e.g. on how the stream happens to be split into pieces), so equal data no longer gives equal chunks and boundaries do not re-synchronise',
+            )
+            continue
         copied = sl is not v or sl.value.id not in alias
         lo, hi = _lin(sl.slice.lower), _lin(sl.slice.upper) if sl.slice.upper is not None else None
         if lo is None or hi is None:
